@@ -700,6 +700,20 @@ def _sub(node, env, hook):
             rep = ast.UnaryOp(op=_UN_OPS[fnm](), operand=new.args[0])
         if rep is not None:
             return ast.copy_location(rep, new) if hasattr(new, "lineno") else rep
+    if isinstance(new, ast.BinOp) and isinstance(new.op, ast.Add) and isinstance(new.left, ast.Constant) and isinstance(new.right, ast.Constant) \
+            and isinstance(new.left.value, str) and isinstance(new.right.value, str):
+        return ast.copy_location(ast.Constant(value=new.left.value + new.right.value), new) if hasattr(new, "lineno") else ast.Constant(value=new.left.value + new.right.value)
+    if isinstance(new, ast.Call) and isinstance(new.func, ast.Attribute) and new.func.attr == "format" and isinstance(new.func.value, ast.Constant) and isinstance(new.func.value.value, str) \
+            and new.args and not new.keywords and all(isinstance(a, ast.Constant) and isinstance(a.value, str) for a in new.args) and "{" in new.func.value.value:
+        try:
+            folded = new.func.value.value.format(*[a.value for a in new.args])
+            return ast.copy_location(ast.Constant(value=folded), new) if hasattr(new, "lineno") else ast.Constant(value=folded)
+        except Exception:
+            pass
+    if isinstance(new, ast.Call) and isinstance(new.func, ast.Name) and new.func.id == "getattr" and len(new.args) == 2 and not new.keywords \
+            and isinstance(new.args[1], ast.Constant) and isinstance(new.args[1].value, str) and new.args[1].value.isidentifier():
+        at = ast.Attribute(value=new.args[0], attr=new.args[1].value, ctx=ast.Load())
+        return ast.copy_location(at, new) if hasattr(new, "lineno") else at
     if isinstance(new, ast.Call) and isinstance(new.func, ast.Name) and new.func.id in ("max", "min") and len(new.args) == 1 and not new.keywords \
             and isinstance(new.args[0], (ast.Tuple, ast.List)) and new.args[0].elts and not any(isinstance(a, ast.Starred) for a in new.args[0].elts):
         # max((a, b)) reached by substitution of a literal tuple: max(a, b); of one element: the element
@@ -982,6 +996,14 @@ def walk_path(path, params=(), init_env=None, kill_attr_on_call=None, prog=None,
         elif k == "expr":
             record_calls(s.value, s)
             c = s.value
+            if isinstance(c, ast.Call) and isinstance(c.func, ast.Name) and c.func.id == "setattr" and len(c.args) == 3 and not c.keywords:
+                # setattr(obj, '<literal after substitution>', v) is the attribute store obj.<literal> = v
+                nm_ = S(c.args[1])
+                ob_ = S(c.args[0])
+                if isinstance(nm_, ast.Constant) and isinstance(nm_.value, str) and nm_.value.isidentifier() and dotted(ob_):
+                    tgt = ast.Attribute(value=ob_, attr=nm_.value, ctx=ast.Store())
+                    ast.copy_location(tgt, c)
+                    bind(tgt, S(c.args[2]), c.args[2], s)
             if isinstance(c, ast.Call) and isinstance(c.func, ast.Attribute) and isinstance(c.func.value, ast.Name):
                 nm = c.func.value.id
                 e0 = cur_env().get(nm)
@@ -1058,9 +1080,16 @@ def walk_path(path, params=(), init_env=None, kill_attr_on_call=None, prog=None,
             if is_method and isinstance(call.func, ast.Attribute) and dotted(call.func.value) != "self":
                 env2["self"] = S(call.func.value)
             st_["scope"] = _Scope(callee, env2, s, scope)
+            st_["scope"].gmark = len(guards)
         elif k == "leave":
             callee_scope = scope
             st_["scope"] = scope.parent
+            # tests inside the helper that are still open (it returned from within a branch) are path conditions of what follows in the caller,
+            # not control dependences: the helper returned normally on this path whichever way they went
+            gm = getattr(callee_scope, "gmark", None)
+            if gm is not None and len(guards) > gm:
+                closed.extend(guards[gm:])
+                del guards[gm:]
             rv = callee_scope.ret if callee_scope.ret is not None else ast.Constant(value=None)
             if isinstance(s, ast.Assign):
                 for t in s.targets:
